@@ -280,6 +280,30 @@ def faults_for(tname: str, aval) -> List[Tuple[str, bytes, Dict[str, Any]]]:
                 if newlen >= 0 and newlen != len(r.payload):
                     out.append(("length-perturbed", data[:pos + tl] + wire.enc_varint(newlen) + rest, {}))
         pos += len(r.raw)
+    # packed payloads whose length is consistent with the input but is not a whole number of
+    # elements (fixed width), or whose last varint element is cut (continuation bit set)
+    for number, f in declared.items():
+        if f.card == "repeated" and f.base in PACKABLE:
+            wt_e = reencode.elem_wt(f.kind)
+            good = b""
+            for r in recs:
+                if r.number == number and r.wt == wire.LEN:
+                    good = r.payload
+            width = 4 if wt_e == wire.FIXED32 else 8 if wt_e == wire.FIXED64 else 0
+            ragged = []
+            if width:
+                for extra in range(1, width):
+                    ragged.append(good + b"\x01" * extra)
+                    ragged.append(b"\x01" * extra)
+            else:
+                ragged.append(good + b"\x80")
+                ragged.append(good + b"\xff\xff")
+                ragged.append(b"\x81")
+            for pl in ragged:
+                rec = wire.make_rec(number, wire.LEN, pl).raw
+                out.append(("packed-ragged", rec, {}))
+                out.append(("packed-ragged", data + rec, {}))
+                out.append(("packed-ragged", rec + data, {}))
     # field number zero
     for wt, payload in ((0, b"\x01"), (2, b"\x01a"), (5, b"\0\0\0\0"), (1, b"\0" * 8)):
         z = bytes([wt]) + payload
